@@ -121,12 +121,12 @@ func formatString(formatStr *value.String, params *value.Array) (*value.String, 
 */
 func elementToString(formatter string, elem r.Element) (string, error) {
 	if formatter == "" {
-		switch elem.(type) {
-		case *value.String, *value.Number, *value.Bool, *value.Array, *value.HashMap, *value.Null:
-			return elem.String(), nil
-		default:
+		// {} inserts the display form, and every element has one (the same that 显示 prints:
+		// an object inside a list was rendered already, a bare object was refused)
+		if elem == nil {
 			return "", zerr.InvalidParamType("")
 		}
+		return elem.String(), nil
 	}
 
 	// if formatter starts from #
